@@ -804,7 +804,18 @@ fn reuse(o: &Opts, out: &mut Out, run: &mut u64) {
     for k in 0..n {
         let (mut tb, c1, sc, data) = storage_tx(&mut rng, o.seed.wrapping_mul(131).wrapping_add(k as u64));
         let gas = if rng.gen_range(0..5) == 0 { rng.gen_range(300..5000) } else { 1_000_000 };
-        let target = match build_storage_tx(&mut tb, c1, sc.clone(), data.clone(), gas) { Some(c) => c, None => continue };
+        // every fourth target only REFERENCES c1 (size / balance / root / call) without listing it: what an earlier
+        // transaction on the same instance listed must not matter (on a fresh instance these panic ContractNotInInputs)
+        let unlisted = k % 4 == 3;
+        let target = if unlisted {
+            let r = |k: u8| RegId::new(0x10 + k);
+            let probe = match k % 16 { 3 => op::csiz(r(1), r(0)), 7 => op::bal(r(1), RegId::HP, r(0)), 11 => op::croo(RegId::HP, r(0)), _ => op::call(r(0), RegId::ZERO, RegId::HP, RegId::CGAS) };
+            let code = asm(vec![op::movi(r(4), 32), op::aloc(r(4)), op::gtf_args(r(0), RegId::ZERO, GTFArgs::ScriptData), probe, op::log(r(1), RegId::ZERO, RegId::ZERO, RegId::ZERO), op::ret(RegId::ONE)]);
+            let w0 = World { params: ConsensusParameters::standard(), gas_price: 0, storage: tb.get_storage().clone(), block_height: u32::from(tb.get_block_height()) };
+            match simple_script(&w0, &mut rng, code, data.clone(), gas) { Ok(c) => c, Err(_) => continue }
+        } else {
+            match build_storage_tx(&mut tb, c1, sc.clone(), data.clone(), gas) { Some(c) => c, None => continue }
+        };
         let minted: AssetId = { use fuel_tx::ContractIdExt; c1.default_asset() };
         let watch = [minted, AssetId::zeroed()];
         let post = move |vm: &Vm<MemoryStorage>| -> serde_json::Value { storage_dump(vm.as_ref(), &[c1], &watch) };
@@ -816,7 +827,7 @@ fn reuse(o: &Opts, out: &mut Out, run: &mut u64) {
         let hist_n = rng.gen_range(1..4);
         let mut hist_desc = vec![];
         for h in 0..hist_n {
-            let kind = rng.gen_range(0..4);
+            let kind = if unlisted && h == 0 { 0 } else { rng.gen_range(0..4) };
             let checked = match kind {
                 0 => { // a different storage transaction on the same contract (warms the slot cache, may panic / revert)
                     let (_, _, sc2, _) = storage_tx(&mut rng, 999 + h);
@@ -835,7 +846,7 @@ fn reuse(o: &Opts, out: &mut Out, run: &mut u64) {
         let ref_run = *run;
         out.ev(json!({"ev": "Seg"}));
         let mut fresh = new_vm(&w2);
-        let extra = json!({"driver": "reuse", "contracts": contracts_json(&start, &[c1], &watch), "inputs": [hx(c1)]});
+        let extra = json!({"driver": "reuse", "contracts": contracts_json(&start, &[c1], &watch), "inputs": if unlisted { json!([]) } else { json!([hx(c1)]) }});
         record_run_with(out, ref_run, &mut fresh, &w2, target.clone(), extra, 20_000, Some(&post));
         // reused interpreter
         match run_plain(&mut used, &w2, target.clone()) {
